@@ -83,13 +83,22 @@ def families():
     return out
 
 
-def check_text(text):
+MUST_ACCEPT = ('numeral', 'variable', 'never-succeeds')
+
+
+def check_text(text, tag=None):
     """-> (status, sig, detail, outcome)"""
     r = rg.analyse(text)
     try:
         out = impl.compile_text(text)
     except Exception as e:  # noqa: BLE001
-        # raising - whatever the exception - is the compiler's way of not accepting an input
+        # raising - whatever the exception - is the compiler's way of not accepting an input.
+        # The property allows that for clauses that are too large; for the lexical boundary
+        # forms it names (any numeral spelling, any variable name, bodies that can never
+        # succeed) in ordinary small clauses with plain heads, an error is not 'holding'.
+        if tag in MUST_ACCEPT and r.accepted and r.heads is not None and all(c10.IDENT.match(nm) for nm, _ in r.heads):
+            return ('violation', 'rejects-supported-form:' + type(e).__name__,
+                    'text: %r\nis a small clause in a lexical form the property names, but the compiler raised %r' % (text, e), None)
         return ('ok', None, None, ('rejected', type(e).__name__))
     if not r.accepted:
         return ('ok', None, None, ('outside-language(C10)',))
@@ -147,11 +156,11 @@ def process(acc, index, tag, text):
     acc.n['transitions'] += 1
     try:
         with watchdog(120):
-            st, sig, detail, outcome = check_text(text)
+            st, sig, detail, outcome = check_text(text, tag)
     except Hang as e:
         st, sig, detail, outcome = 'violation', 'hang', '%r: %s' % (text[:200], e), None
     if st == 'violation':
-        acc.violation(tag + ':' + sig, index, {'text': text}, detail, key=text)
+        acc.violation(tag + ':' + sig, index, {'text': text, 'tag': tag}, detail, key=text)
         return
     acc.outcome(outcome if len(repr(outcome)) < 200 else outcome[:1])
     acc.n['family:' + tag] += 1
@@ -198,7 +207,7 @@ for _k, _v in list(c10.CLASS_MEMBERS.items()):
 
 
 def replay(case):
-    st, sig, detail, _ = check_text(case['text'])
+    st, sig, detail, _ = check_text(case['text'], case.get('tag'))
     if st == 'violation':
         return [(sig, detail)]
     return []
